@@ -11,7 +11,8 @@ for k in $(seq 1 $lanes); do
   git -C /repo worktree add --detach -f $root/repo$k HEAD >/dev/null 2>&1 || exit 2
   cp /repo/src/cutadapt/_version.py $root/repo$k/src/cutadapt/ 2>/dev/null
 done
-ls seeded | grep -E '^C[0-9]+[a-z]$' > $root/all.txt
+# PATTERN restricts the run to some seeds (their lines replace the old ones in RESULTS.txt)
+ls seeded | grep -E '^C[0-9]+[a-z]$' | grep -E "${PATTERN:-.}" > $root/all.txt
 lane() {
   k=$1
   export VERIF_REPO=$root/repo$k VERIF_OUT=$root/out$k
@@ -30,6 +31,12 @@ print(ids[0] if ids else '$prop')")
 }
 for k in $(seq 1 $lanes); do lane $k & done
 wait
-cat $root/results*.txt | sort > seeded/RESULTS.txt
+if [ -n "$PATTERN" ] && [ -f seeded/RESULTS.txt ]; then
+  grep -v -E "^C[0-9]+[a-z] " /dev/null > /dev/null
+  (awk '{print $1}' $root/results*.txt | sort -u > $root/done.txt; grep -v -w -F -f $root/done.txt seeded/RESULTS.txt; cat $root/results*.txt) | sort > $root/merged.txt
+  cp $root/merged.txt seeded/RESULTS.txt
+else
+  cat $root/results*.txt | sort > seeded/RESULTS.txt
+fi
 for k in $(seq 1 $lanes); do git -C /repo worktree remove --force $root/repo$k; done
 awk '{print $1, $2, $3}' seeded/RESULTS.txt
